@@ -396,6 +396,31 @@ func c05Frame(p *core.Program, r *core.Report, rule string, optsOnly bool) {
 				}
 				return true
 			})
+			// a store that is a plain byte slice is reset by re-slicing it to no elements (x.buf = x.buf[:0])
+			// or by dropping it (x.buf = nil)
+			ast.Inspect(fi.Decl.Body, func(n ast.Node) bool {
+				as, ok := n.(*ast.AssignStmt)
+				if !ok || len(as.Lhs) != 1 || len(as.Rhs) != 1 || resetPos != 0 {
+					return true
+				}
+				ls, ok := ast.Unparen(as.Lhs[0]).(*ast.SelectorExpr)
+				if !ok || !isByteSlice(fi.Pkg.TypesInfo.TypeOf(ls)) {
+					return true
+				}
+				switch rv := ast.Unparen(as.Rhs[0]).(type) {
+				case *ast.Ident:
+					if rv.Name == "nil" {
+						resetPos = as.Pos()
+					}
+				case *ast.SliceExpr:
+					if rv.High != nil && types.ExprString(rv.X) == types.ExprString(ls) {
+						if k, ok := constIntOf(fi.Pkg.TypesInfo, rv.High); ok && k == 0 {
+							resetPos = as.Pos()
+						}
+					}
+				}
+				return true
+			})
 			reaches := fi == wh
 			if !reaches {
 				ast.Inspect(wh.Decl.Body, func(n ast.Node) bool {
